@@ -73,6 +73,10 @@ def render(s, variant, placement):
         # sibling closure, so resolving it in the wrong namespace gives another value
         t = tup if names else "()"
         body = "def f(%s):\n    return %s" % (plist.replace("dflt(", "dflt(scoped, "), t)
+    elif variant == "defclassuse":
+        # every parameter is read by the body of a class defined in the function, and by nothing else
+        t = tup if names else "()"
+        body = "def f(%s):\n    class Seen:\n        got = %s\n    return Seen.got" % (plist, t)
     elif variant == "defclosure":
         # every parameter is captured by an inner function and by an inner lambda
         t = tup if names else "()"
@@ -232,7 +236,7 @@ def run_shard(shard):
 def main(tier, seed, collect=None):
     t0 = time.time()
     k = 96
-    variants = ["def", "defann", "lambda", "defclosure", "defscope"]
+    variants = ["def", "defann", "lambda", "defclosure", "defscope", "defclassuse"]
     placements = ["module", "function", "class"]
     cfgs = core.ALL_CFG
     total = core.run_shards(run_shard, [(r, k, cfgs, variants, placements) for r in range(k)], seed=seed, pid=PID)
